@@ -415,6 +415,8 @@ def parse_func_header(s):
                     pname = '__arg%d' % idx
                 if any(a == ('word', 'byval') for a in attrs):
                     f.byval[pname] = True
+                f.pattrs = getattr(f, 'pattrs', {})
+                f.pattrs[len(f.params)] = [a for a in attrs]
                 f.params.append((pt, pname))
                 idx += 1
             if c.accept(')'): break
@@ -1266,6 +1268,8 @@ class Emitter:
             elif av[0] == 'global': gv = av[1]
             if gv and gv in self.m.globals and self.m.globals[gv]['init'] and self.m.globals[gv]['init'][0] == 'cstr':
                 msg = self.m.globals[gv]['init'][1].rstrip(b'\0').decode('latin1')
+            if msg == 'assertion':
+                raise RuntimeError('__CPROVER_assert with a non-constant message (merged call sites?)')
             msg = re.sub(r'[^-A-Za-z0-9 _.,:;()<>=+*/\[\]]', '?', msg)
             out.append('__CPROVER_assert(%s, "%s");' % (self.val(*args[0]), msg))
             return out
@@ -1334,6 +1338,22 @@ class Emitter:
                     return ['*(%s*)%s = *(%s*)%s;' % (ct, A[0], ct, A[1])]
             fn = 'vf_memcpy' if name.startswith('llvm.memcpy.') else 'vf_memmove'
             if args[2][1][0] == 'int': fn = fn[3:]   # constant length: CBMC's built-in is exact and cheap
+            else:
+                # dynamic length: copy element-wise in the element type the pointers were cast from
+                # (typed assignments stay field-sensitive in CBMC; the loop is bounded by --unwind)
+                et = None
+                for k_ in (0, 1):
+                    v_ = args[k_][1]
+                    if v_[0] == 'local' and v_[1] in self.i8src:
+                        t_ = self.i8src[v_[1]]
+                        try:
+                            if t_[0] != 'func' and self.resolve(t_)[0] != 'opaque' and self.sizeof(t_) >= 1: et = t_; break
+                        except (NotImplementedError, KeyError): pass
+                if et is not None:
+                    ct = self.ctype(et)
+                    return ['VF_TYPED_MOVE(%s, %s, %s, %s);' % (ct, A[0], A[1], A[2])]
+                if all(not (args[k_][1][0] == 'local' and args[k_][1][1] in self.i8src) for k_ in (0, 1)):
+                    fn = fn[3:]   # genuine byte buffers (pointers are i8* at the source level): CBMC's built-in handles char arrays exactly
             return ['if (%s) %s(%s, %s, %s);' % (A[2], fn, A[0], A[1], A[2])]   # a zero-length copy touches nothing (dest may be null)
         if name.startswith('llvm.memset.'):
             v0 = args[0][1]
@@ -1466,6 +1486,9 @@ void* vf_memmove(void* d, const void* s, size_t n) {
   }
   return d;
 }
+#define VF_TYPED_MOVE(T, D, S, N) do { T* d_ = (T*)(D); const T* s_ = (const T*)(S); size_t k_ = (size_t)(N) / sizeof(T); \
+  if (__CPROVER_POINTER_OBJECT(d_) == __CPROVER_POINTER_OBJECT(s_) && __CPROVER_POINTER_OFFSET(d_) > __CPROVER_POINTER_OFFSET(s_)) { for (size_t i_ = k_; i_ > 0; i_--) d_[i_ - 1] = s_[i_ - 1]; } \
+  else { for (size_t i_ = 0; i_ < k_; i_++) d_[i_] = s_[i_]; } } while (0)
 void* memchr(const void* s, int c, size_t n) { const unsigned char* p = (const unsigned char*)s; for (size_t i = 0; i < n; i++) if (p[i] == (unsigned char)c) return (void*)(p + i); return 0; }
 #else
 #define vf_nd_u8 nondet_u8
@@ -1475,6 +1498,7 @@ void* memchr(const void* s, int c, size_t n) { const unsigned char* p = (const u
 #define vf_nd_bool nondet_bool
 #define vf_memcpy memcpy
 #define vf_memmove memmove
+#define VF_TYPED_MOVE(T, D, S, N) memmove((D), (S), (N))
 #endif
 int isspace(int c) { return c == ' ' || (c >= 9 && c <= 13); }
 int bcmp(const void* a, const void* b, size_t n) { return memcmp(a, b, n) != 0; }
